@@ -193,7 +193,17 @@ def run_case(work, idx, case, keep=False):
     env.pop('TALLY_CONFIG', None)
     steps = []
     pre = snapshot(bdir)
-    for k, argv in enumerate(case['cmds']):
+    for k, entry in enumerate(case['cmds']):
+        # a command is an argv list, or {'argv', 'cwd' (relative to the budget dir), 'env'}; '{B}' = the budget dir
+        if isinstance(entry, dict):
+            argv = [a.replace('{B}', bdir) for a in entry['argv']]
+            cwd = os.path.normpath(os.path.join(bdir, entry.get('cwd') or '.'))
+            cenv = dict(env)
+            cenv.update({kk: vv.replace('{B}', bdir) for kk, vv in (entry.get('env') or {}).items()})
+        else:
+            argv, cwd, cenv = list(entry), bdir, env
+        if not os.path.isdir(cwd):
+            cwd = bdir
         trace = os.path.join(cdir, f'trace{k}.txt')
         facts, conv = {}, {}
         for root in ('', 'tally/'):
@@ -211,12 +221,12 @@ def run_case(work, idx, case, keep=False):
                 conv[cp] = convert_csv(os.path.join(bdir, cp))
         cmd = ['strace', '-f', '-o', trace, '-e', 'trace=' + TRACE, PY, '-m', 'tally'] + list(argv)
         try:
-            p = subprocess.run(cmd, cwd=bdir, env=env, stdin=subprocess.DEVNULL, capture_output=True, text=True,
+            p = subprocess.run(cmd, cwd=cwd, env=cenv, stdin=subprocess.DEVNULL, capture_output=True, text=True,
                                timeout=120, errors='replace')
             rc, err, out = p.returncode, p.stderr[-400:], p.stdout[-200:]
         except subprocess.TimeoutExpired:
             rc, err, out = 124, 'timeout', ''
-        ops_all = parse_trace(trace, bdir)
+        ops_all = parse_trace(trace, cwd)
         inside, outside = [], []
         for kind, a, b, ok in ops_all:
             if not ok:
@@ -230,7 +240,7 @@ def run_case(work, idx, case, keep=False):
             elif not (a.startswith('/dev/') or a.startswith('/proc/')):
                 outside.append([kind, a, b])
         post = snapshot(bdir)
-        steps.append({'argv': list(argv), 'rc': rc, 'stderr': err, 'stdout_tail': out, 'pre': pre, 'post': post,
+        steps.append({'argv': [x.replace(bdir, '{B}') for x in argv], 'cwd': os.path.relpath(cwd, bdir), 'rc': rc, 'stderr': err, 'stdout_tail': out, 'pre': pre, 'post': post,
                       'ops': inside, 'outside': outside, 'facts': facts, 'convert': conv})
         pre = post
     if not keep:
